@@ -147,6 +147,22 @@ package virtual
 //@   ensures counts-only-grow: touches(&i.contents) >= old(touches(&i.contents))
 //@   ensures marked-deleted: i.contents.isDeleted
 
+// Emptying a directory through the bulk calls does not delete the directory
+// itself unless that is asked for: a directory that still has an entry in its
+// parent keeps accepting new entries.
+//@ func (*inMemoryPrepopulatedDirectory).removeAllChildren
+//@   props C13
+//@   ensures only-deleted-when-asked-to: !deleteSelf ==> i.contents.isDeleted == old(i.contents.isDeleted)
+//@ func (*inMemoryPrepopulatedDirectory).postRemoveChildren
+//@   props C13
+//@   ensures_assumed i.contents.isDeleted == old(i.contents.isDeleted) -- the directories removed recursively are descendants of i, never i itself (the directory tree is acyclic)
+//@ func (*inMemoryPrepopulatedDirectory).RemoveAllChildren
+//@   props C13
+//@   ensures only-deleted-when-asked-to: !deleteSelf ==> i.contents.isDeleted == old(i.contents.isDeleted)
+//@ func (*inMemoryPrepopulatedDirectory).filterChildrenRecursive$1
+//@   props C13
+//@   ensures the-remover-handed-to-a-filter-empties-but-keeps-the-directory: i.contents.isDeleted == old(i.contents.isDeleted)
+
 // Every kernel-facing operation either fails and modifies nothing, or
 // succeeds and bumps the change counter of each directory it modified; the
 // reported ChangeInfo brackets exactly that modification.
